@@ -40,10 +40,13 @@ Record pod := {
 (* one end of a connection: its address and, when the address belongs to a pod, that pod *)
 Record party := { pa_ver : ipver; pa_ip : N; pa_pod : option pod }.
 Record conn := { c_src : party; c_dst : party; c_proto : N; c_dport : N }.
-(* namespace name -> namespace labels *)
-Definition cluster := list (bytes * labels).
+(* namespace name -> namespace labels; (namespace, service account name) -> service account labels *)
+Record cluster := { cl_ns : list (bytes * labels); cl_sa : list (bytes * bytes * labels) }.
 Definition ns_labels (cl : cluster) (ns : bytes) : labels :=
-  match find (fun e => bytes_eqb (fst e) ns) cl with Some e => snd e | None => [] end.
+  match find (fun e => bytes_eqb (fst e) ns) (cl_ns cl) with Some e => snd e | None => [] end.
+Definition sa_labels (cl : cluster) (ns sa : bytes) : labels :=
+  match find (fun e => bytes_eqb (fst (fst e)) ns && bytes_eqb (snd (fst e)) sa) (cl_sa cl) with
+  | Some e => snd e | None => [] end.
 
 Definition kproto_num (p : kproto) : N := match p with KTCP => 6 | KUDP => 17 | KSCTP => 132 end.
 Definition is_nil {A} (l : list A) : bool := match l with [] => true | _ => false end.
@@ -260,7 +263,11 @@ Definition cal_allows (ps : list cpolicy) (src dst : cparty) (proto dport : N) :
 
 Definition cep_of_pod (cl : cluster) (p : pod) : cep :=
   {| ce_labels := wep_labels (pod_ns p) (pod_sa p) (pod_labels p);
-     ce_parents := [profile_labels (pod_ns p) (ns_labels cl (pod_ns p))];
+     ce_parents := profile_labels (pod_ns p) (ns_labels cl (pod_ns p))
+                   :: match pod_sa p with
+                      | [] => []
+                      | sa => [sa_profile_labels sa (sa_labels cl (pod_ns p) sa)]
+                      end;
      ce_ports := map (fun e => (fst (fst e), kproto_num (snd (fst e)), snd e)) (pod_ports p) |}.
 Definition cparty_of (cl : cluster) (x : party) : cparty :=
   {| cq_ver := pa_ver x; cq_ip := pa_ip x; cq_ep := option_map (cep_of_pod cl) (pa_pod x) |}.
@@ -288,6 +295,7 @@ Record case := {
 }.
 
 Definition kns_name (ns : bytes) : bytes := KNS ++ ns.
+Definition ksa_name (ns sa : bytes) : bytes := KSA ++ ns ++ DOT ++ sa.
 
 Definition impl_cep (c : case) (ip : ipod) : cep :=
   {| ce_labels := ip_impl_labels ip;
@@ -320,14 +328,16 @@ Definition agree (c : case) : bool :=
         labels_eqb (canon_labels (wep_labels (pod_ns p) (pod_sa p) (pod_labels p))) (ip_impl_labels ip)
         && list_eqb (fun x y => bytes_eqb (fst (fst x)) (fst (fst y)) && N.eqb (snd (fst x)) (snd (fst y)) && N.eqb (snd x) (snd y))
                     (map (fun e => (fst (fst e), kproto_num (snd (fst e)), snd e)) (pod_ports p)) (ip_impl_ports ip)
-        && match ip_impl_profiles ip with
-           | pn :: _ => bytes_eqb pn (kns_name (pod_ns p))
-           | [] => false
-           end) (k_pods c)
+        && list_eqb bytes_eqb (ip_impl_profiles ip)
+             (kns_name (pod_ns p) :: match pod_sa p with [] => [] | sa => [ksa_name (pod_ns p) sa] end)) (k_pods c)
   && forallb (fun e => match find (fun x => bytes_eqb (kns_name (fst e)) (fst x)) (k_impl_profiles c) with
                        | Some x => labels_eqb (canon_labels (profile_labels (fst e) (snd e))) (snd x)
                        | None => false
-                       end) (k_cluster c).
+                       end) (cl_ns (k_cluster c))
+  && forallb (fun e => match find (fun x => bytes_eqb (ksa_name (fst (fst e)) (snd (fst e))) (fst x)) (k_impl_profiles c) with
+                       | Some x => labels_eqb (canon_labels (sa_profile_labels (snd (fst e)) (snd e))) (snd x)
+                       | None => false
+                       end) (cl_sa (k_cluster c)).
 
 (* the property, evaluated on the IMPLEMENTATION's converted policies, labels and profiles: for every
    generated connection the Calico verdict equals the Kubernetes verdict *)
